@@ -115,6 +115,8 @@ def _do_assign(a, st, block):
     elif how == "neg" and 0 <= r0 < H and r1 <= H:
         r0 = r0 - H
         r1 = None if r1 == H else r1 - H
+    elif how == "neg_start" and 0 <= r0 < H < r1:
+        r0 = r0 - H          # counted from the current last row; the explicit stop reaches past it
     if form == "slice2d":
         a[r0:r1, c0:c1] = block
     elif form == "rowslice":
@@ -327,7 +329,9 @@ def rand_step(rng, H, W):
         block = [rand_row(rng, W) for _ in range(H)]
     st = {"form": form, "r0": r0, "r1": r1, "c0": c0, "c1": c1, "block": block,
           "as_fsarray": rng.random() < .15 and not whole, "poke_block": rng.random() < .4}
-    if rng.random() < .12 and r1 <= H and r0 < r1:
+    if rng.random() < .3 and r0 < H < r1 and form not in ("introw", "int2d"):
+        st["rows_as"] = "neg_start"
+    elif rng.random() < .12 and r1 <= H and r0 < r1:
         # rows named with omitted / negative bounds; only where that names the same rows
         ways = ["neg"] if r0 < H else []
         if form not in ("introw", "int2d"):
